@@ -12,6 +12,22 @@ COMMON_NOTE = ("Trusted: Lean 4.33 kernel; axioms ⊆ {propext, Classical.choice
 
 # id -> (technique, level text, level note extra, design_ref)
 CHECKS = {
+    "C14": ("Lean 4 proof over ℚ of the running-filter geometry (symmetric reflection, window placement, output length "
+            "for every width), decimators (1-D, 2-D, flat-kernel index arithmetic = 2-D) and the least-squares "
+            "normal equations of detrend_1d + exhaustive small-lattice correspondence + definition oracle",
+            "Theorems running_len (every width incl. > length), refl_*, windowIdx_*, runningMean_get/_const, "
+            "downsample1d_*, flat_eq_2d (row/column roles for non-square shapes), downsample2d_shape, "
+            "detrend_normal_eqs, detrend_line.",
+            "bottleneck's move_mean/move_median and np.pad('symmetric') are modelled by their definitions and tied by "
+            "correspondence over all lengths 1..16(24) x widths 1..2n+3; float rounding compared with tolerance.",
+            "§5 C14"),
+    "C16": ("Lean 4 proof of the Boolean mask algebra (union, monotonicity, closed-range user mask) and the cleaned "
+            "file as an instance of C07's row-local streaming theorem + differential correspondence of every mask after "
+            "every call + independent outlier/masking oracle on real files",
+            "Theorems mask_union, mask_monotone(_trace), user_mask_spec, stats_mask_spec, threshold_spec, "
+            "cleaned_file_spec / cleaned_sample (masked channels constant, others identical, every gulp).",
+            "Which channels are statistical outliers is C15's z-score thresholding (compared with an independent NumPy "
+            "implementation); the HDF5 mask-file round trip is validated only (external container).", "§5 C16"),
     "C12": ("Lean 4 proof of the padding/slicing/lag bookkeeping around the FFT (circular convolution of zero-padded "
             "inputs = full linear convolution for every transform size ≥ n1+n2-1; correlation lags; rfft/irfft lengths) "
             "+ numerical correspondence over EVERY length 1..256 (1..1024 thorough) against float64 direct evaluation",
